@@ -202,6 +202,23 @@ func c16Triples(c *Ctx, n int) []c16Triple {
 			ts = append(ts, c16Triple{q, schema, "", "malformed/odd-keys-and-deep-nesting", nil})
 		}
 	}
+	// known function names written in another letter case (unknown names as far as the validator goes), each validated more than once
+	// and under two schemas: the first validation of a query text must leave nothing behind that changes the later ones
+	{
+		schemaA := "input: {\n\tname: string\n\tcount: int\n\titems: [...{v: string}]\n\t_dependencies: []\n}\n"
+		schemaB := "input: {\n\tname: string\n\tcount: int\n\titems: [...{v: string}]\n\tmore: bool\n\t_dependencies: []\n}\n"
+		qs := []string{"$.input.name.isnull()", "$.input.count.LESS(1)", `$.input.name.equal("x")`, "{OR,$.input.name.isnull(),$.input.count.Greater(1)}", "$.input.name.Equal($.input.name.left(1))",
+			"$.input.count.aDD(1).Less(2)", `$.input.items[@.v.EQUAL("x")]`, "$.input.items.count()", "$.input.name.IsNull()", `{AND,$.input.name.PREFIX("a"),{$.input.count.less(2)}}`, "$.input.items.FIRST().v"}
+		for round := 0; round < 3; round++ {
+			for _, q := range qs {
+				sc := schemaA
+				if round == 1 {
+					sc = schemaB
+				}
+				ts = append(ts, c16Triple{q, sc, "", "function-names-in-another-case", nil})
+			}
+		}
+	}
 	// step ids that contain a dot next to nested fields of the same spelling: `"job.out"` (one root field) and `job: {out: ..}`
 	for i := 0; i < 3; i++ {
 		schema := fmt.Sprintf("fetch: {r: string, _dependencies: []}\n\"job.out\": {r: string, n%d: int, _dependencies: [\"fetch\"]}\njob: {out: {r: int}, _dependencies: []}\n\"a.b.c\": {v: bool, _dependencies: [\"job.out\"]}\na: {b: {c: {v: string}}, _dependencies: []}\n", i)
